@@ -4,13 +4,14 @@
 
       run <fuel> <sexp>          -> Res.show (run P fuel)
       rw <name> <fuel> <sexp>    -> Res.show (run (R P) fuel)  for the Lean-defined rewrite R
-                                     (deadcode | iffalse | noop | unblock), "changed=0|1" appended
+                                     (deadcode | iffalse | noop | blockwrap), "changed=0|1" appended
 
   Parsing is IO glue (partial defs); it is not part of any theorem.
 -/
 import GojaModel.Base.Proto
 import GojaModel.C02.Model
 import GojaModel.C02.Rewrites
+import GojaModel.C02.Wrap
 
 namespace GojaModel.C02.Driver
 open GojaModel.C02
@@ -210,6 +211,14 @@ def handle (line : String) : String :=
   else if cmd == "rw" then
     let (name, rest2) := splitWord rest
     let (fuel, src) := splitWord rest2
+    if name == "blockwrap" then
+      -- depth-changing rewrite: run the wrapped program with twice the fuel (theorem block_wrap_ge)
+      match fuel.toNat?, parseProg src with
+      | some n, some P =>
+        let P' := blockWrap P
+        (run P' (2 * n)).show ++ " | changed=" ++ (if progSize P' == progSize P then "0" else "1")
+      | _, _ => "parse-error"
+    else
     match fuel.toNat?, parseProg src, rewriteByName name with
     | some n, some P, some R =>
       let P' := R P
